@@ -28,7 +28,16 @@
 (*  10 append a copy of unit a     11 append b cells of garbage               *)
 (*  12 replace unit a by unit (b div 10) of document B variant (b mod 10)     *)
 (*  13 append unit a of document B variant b                                  *)
-(*  14 the unwrap callback yields another key (a = 1) / fails (a = 2)         *)
+(*  14 the unwrap callback: a = 1 returns another 32-byte key; 2 fails         *)
+(*     (nil, err); 3 returns a short/empty key without error; 4 returns 32    *)
+(*     zero bytes together with an error; 5 returns 32 other bytes together   *)
+(*     with an error.  When the callback fails (2..5) or the key is not 32    *)
+(*     bytes, Decrypt continues with the ALL-ZERO file key "K0" (2, 3) or     *)
+(*     with the bytes it got (4: "K0", 5: "KX") so that the MAC check fails   *)
+(*     uniformly (scheme.go:216-224)                                          *)
+(*  15 FORGE: replace the whole document by one built under the all-zero file *)
+(*     key: header MAC under HKDF(K0, header), every segment sealed under     *)
+(*     HKDF(K0, np, payload), same shape, attacker's plaintext, garbage wfk   *)
 (* Document B has two units; variant 1: same file key, other nonce prefix;    *)
 (* 2: other key, same prefix; 3: both differ.                                 *)
 (* Source failure: the reader fails after `failAt` payload cells (0 = right   *)
@@ -41,11 +50,12 @@ EXTENDS EncTamperContract, Integers, TLC
 CONSTANTS MaxSegs,        \* honest documents have 0..MaxSegs segments, the last one short or full
           MaxOps,         \* adversary operations per behaviour
           MaxOpsFail,     \* ... when the source also fails
-          Defect,         \* "none" | "nolastbind" | "release-first" | "swallow"
+          Defect,         \* "none" | "nolastbind" | "release-first" | "swallow" | "zero-key-accepted" (a failed unwrap is
+                          \* forgotten once the fallback key is in place: a document forged under that key passes the MAC check)
           Export          \* TRUE: print one SCRIPT line per terminal state (replayed on the real code)
 
-VARIABLES nA, lastFull, hdr, ukey, units, ops, failAt, withData, phase, i, released, term, c
-vars == <<nA, lastFull, hdr, ukey, units, ops, failAt, withData, phase, i, released, term, c>>
+VARIABLES nA, lastFull, hdr, ukey, ufail, units, ops, failAt, withData, phase, i, released, term, c
+vars == <<nA, lastFull, hdr, ukey, ufail, units, ops, failAt, withData, phase, i, released, term, c>>
 
 F == 3
 RECURSIVE Feed(_, _)
@@ -72,12 +82,13 @@ InsertAfter(s, j, x) == SubSeq(s, 1, j) \o <<x>> \o SubSeq(s, j + 1, Len(s))
 
 Init ==
   /\ nA \in 0..MaxSegs /\ lastFull \in BOOLEAN /\ (nA = 0 => lastFull = FALSE)
-  /\ hdr = "ok" /\ ukey = "KA" /\ units = OrigUnits(nA, lastFull) /\ ops = <<>>
+  /\ hdr = "ok" /\ ukey = "KA" /\ ufail = FALSE /\ units = OrigUnits(nA, lastFull) /\ ops = <<>>
   /\ failAt = -1 /\ withData = FALSE /\ phase = "mutate" /\ i = 0 /\ released = <<>> /\ term = "none"
   /\ c = Dummy
 
 Op(code, a, b, h2, k2, u2) ==
   /\ hdr' = h2 /\ ukey' = k2 /\ units' = u2 /\ ops' = Append(ops, <<code, a, b>>)
+  /\ ufail' = (ufail \/ (code = 14 /\ a >= 2))
   /\ UNCHANGED <<nA, lastFull, failAt, withData, phase, i, released, term, c>>
 
 N == Len(units)
@@ -95,32 +106,39 @@ Mutate ==
      \/ \E b \in 1..F : Op(11, 0, b, hdr, ukey, Append(units, Garbage(b, b # 2)))
      \/ \E a \in 1..N : \E j \in 1..2 : \E v \in 1..3 : Op(12, a, 10 * j + v, hdr, ukey, [units EXCEPT ![a] = BUnit(j, v)])
      \/ \E j \in 1..2 : \E v \in 1..3 : Op(13, j, v, hdr, ukey, Append(units, BUnit(j, v)))
-     \/ /\ ukey = "KA" /\ \E a \in 1..2 : Op(14, a, 0, hdr, "KX", units)
+     \/ /\ ukey = "KA" /\ ~ufail /\ \E a \in 1..5 : Op(14, a, 0, hdr, IF a \in {2, 3, 4} THEN "K0" ELSE "KX", units)
+     \/ /\ ops = <<>> /\ Op(15, 0, 0, "forged0", ukey, [j \in 1..nA |-> Seal("K0", "NA", j - 1, j = nA, 200 + j, OrigUnits(nA, lastFull)[j].len)])
 
 Mutated == hdr # "ok" \/ ukey # "KA" \/ units # OrigUnits(nA, lastFull)
-HeaderOnly == hdr # "cut" /\ units = <<>> /\ nA > 0      \* nothing but a (complete) header is left of a non-empty message
+Forged == hdr = "forged0"
+(* the header is accepted iff scheme line and manifest are intact and the MAC verifies under the key in use; the   *)
+(* repaired Decrypt additionally returns an error after the MAC check whenever the unwrap callback had failed    *)
+HeaderAccepted == /\ \/ hdr = "ok" /\ ukey = "KA"
+                     \/ hdr = "forged0" /\ ukey = "K0"
+                  /\ (ufail => Defect = "zero-key-accepted")
+HeaderOnly == hdr \notin {"cut", "forged0"} /\ units = <<>> /\ nA > 0      \* nothing but a (complete) header is left of a non-empty message
 
 (* the caller hands the document to Decrypt; the source will fail at fa (or never) *)
 Start ==
   /\ phase = "mutate"
   /\ \E fa \in ({-1} \cup (IF Len(ops) <= MaxOpsFail THEN {-2} \cup 0..L ELSE {})) :
        /\ failAt' = fa /\ withData' \in (IF fa >= 1 THEN BOOLEAN ELSE {FALSE})
-       /\ c' = CReset([class |-> "model", len |-> nA, mutated |-> Mutated, headerOnly |-> HeaderOnly])
+       /\ c' = CReset([class |-> "model", len |-> nA, mutated |-> Mutated, headerOnly |-> HeaderOnly, forged |-> Forged])
   /\ phase' = "header"
-  /\ UNCHANGED <<nA, lastFull, hdr, ukey, units, ops, i, released, term>>
+  /\ UNCHANGED <<nA, lastFull, hdr, ukey, ufail, units, ops, i, released, term>>
 
 Finish(t, evs) ==
   /\ term' = t /\ phase' = "done"
   /\ c' = Feed(c, evs \o <<[ev |-> "end", term |-> t, released |-> Len(released), equal |-> released = Orig]>>)
-  /\ UNCHANGED <<nA, lastFull, hdr, ukey, units, ops, failAt, withData, i, released>>
+  /\ UNCHANGED <<nA, lastFull, hdr, ukey, ufail, units, ops, failAt, withData, i, released>>
 
 (* scheme.go:196-236 readHeader, manifest, unwrap, MAC *)
 Header ==
   /\ phase = "header"
   /\ IF failAt = -2 THEN Finish("decrypt-err", <<[ev |-> "srcerr"], [ev |-> "decrypt", err |-> TRUE]>>)
-     ELSE IF hdr # "ok" \/ ukey # "KA" THEN Finish("decrypt-err", <<[ev |-> "decrypt", err |-> TRUE]>>)
+     ELSE IF ~HeaderAccepted THEN Finish("decrypt-err", <<[ev |-> "decrypt", err |-> TRUE]>>)
      ELSE /\ phase' = "loop" /\ c' = Feed(c, <<[ev |-> "decrypt", err |-> FALSE]>>)
-          /\ UNCHANGED <<nA, lastFull, hdr, ukey, units, ops, failAt, withData, i, released, term>>
+          /\ UNCHANGED <<nA, lastFull, hdr, ukey, ufail, units, ops, failAt, withData, i, released, term>>
 
 (* the unit a piece coincides with, or Garbage *)
 Piece(from, to) ==
@@ -147,7 +165,7 @@ Loop ==
                IF Opens(u, i, FALSE)
                  THEN /\ released' = Append(released, u.data) /\ i' = i + 1
                       /\ c' = Feed(c, <<[ev |-> "release", n |-> 1, prefixOK |-> IsPrefix(Append(released, u.data), Orig)]>>)
-                      /\ UNCHANGED <<nA, lastFull, hdr, ukey, units, ops, failAt, withData, phase, term>>
+                      /\ UNCHANGED <<nA, lastFull, hdr, ukey, ufail, units, ops, failAt, withData, phase, term>>
                  ELSE IF Defect = "release-first"
                    THEN Finish("err", <<[ev |-> "release", n |-> 1, prefixOK |-> FALSE]>>)
                    ELSE Finish("err", <<>>)
@@ -161,7 +179,7 @@ Loop ==
                                      <<[ev |-> "release", n |-> 1, prefixOK |-> IsPrefix(Append(released, u.data), Orig)],
                                        [ev |-> "end", term |-> "eof", released |-> Len(released) + 1,
                                         equal |-> Append(released, u.data) = Orig]>>)
-                    /\ UNCHANGED <<nA, lastFull, hdr, ukey, units, ops, failAt, withData, i>>
+                    /\ UNCHANGED <<nA, lastFull, hdr, ukey, ufail, units, ops, failAt, withData, i>>
                ELSE Finish("err", IF failAt >= 0 THEN <<[ev |-> "srcerr"]>> ELSE <<>>)
 
 Next == Mutate \/ Start \/ Header \/ Loop
